@@ -195,6 +195,17 @@ def evaluate(case, out):
         except Exception as e:  # noqa
             out.lib_exception("interleave_values", e)
             return
+        # the returned array is the caller's: what the caller does to it afterwards cannot influence a later request
+        try:
+            if isinstance(y, np.ndarray) and y.flags.writeable:
+                keep = y.copy()
+                y[:] = -1
+                y = Assertion.interleave_values(case["n_small"], case["n_med"], case["n_big"], small=s, med=m, big=b)
+                out.expect(bool(np.array_equal(np.asarray(y), keep)), "interleave-result-depends-on-what-a-caller-did-to-an-earlier-result",
+                           lambda: (np.asarray(y)[:6].tolist(), keep[:6].tolist()))
+        except Exception as e:  # noqa
+            out.lib_exception("interleave_values(second)", e)
+            return
         y = np.asarray(y, dtype=float)
         got = (int(np.sum(y == s)), int(np.sum(y == m)), int(np.sum(y == b)))
         out.expect(len(y) == case["n_small"] + case["n_med"] + case["n_big"] and got == (case["n_small"], case["n_med"], case["n_big"]),
@@ -308,7 +319,9 @@ def evaluate(case, out):
             if not out.expect(got_counts == counts, "polling-population-counts", lambda: (got_counts, counts)):
                 return
         try:
-            hist = np.asarray(t.test(np.asarray(x, dtype=float))[1], dtype=float)
+            hist = np.asarray(t.test(np.array(x, dtype=float))[1], dtype=float)
+            if counts is not None and isinstance(x, np.ndarray) and x.flags.writeable:
+                x.sort()   # (the interleaved array was ours; the library builds its own when it estimates)
         except Exception as e:  # noqa
             out.lib_exception("test", e)
             return
